@@ -111,7 +111,7 @@ func (w *Worker) callBuiltin(fn *ssa.Builtin, args []Value) Value {
 		case Ptr:
 			return tt.BV(64, uint64(len((*x.Slot).(ArrayV))))
 		case *ChanV:
-			return tt.BV(64, uint64(x.cap))
+			return tt.BVResize(x.capT, 64, true)
 		}
 	case "delete":
 		m := args[0].(*MapV)
@@ -296,6 +296,10 @@ func (w *Worker) external(fn *ssa.Function, args []Value) (Value, bool) {
 		panic(unsupported("unsafe function %s", name))
 	case "math/bits":
 		return w.bitsExternal(fn, args)
+	case "math/rand/v2", "math/rand", "golang.org/x/exp/rand":
+		if r, ok := w.randExternal(fn, args); ok {
+			return r, true
+		}
 	case "encoding/binary":
 		if fn.Name() == "Size" {
 			iv := args[0].(IfaceV)
@@ -309,6 +313,40 @@ func (w *Worker) external(fn *ssa.Function, args []Value) (Value, bool) {
 	case "errors":
 		if fn.Name() == "New" {
 			return nil, false
+		}
+	case "sort":
+		switch fn.Name() {
+		case "Slice", "SliceStable":
+			// reflection-free model: stable insertion sort driven by the
+			// caller's less function (any correct sort yields a sorted
+			// permutation; the order of equal elements may differ from pdqsort)
+			iv := args[0].(IfaceV)
+			sl := w.concGeom(iv.V.(SliceV))
+			n := w.concInt(sl.Len, "sort.Slice length")
+			w.stats.Stubs["sort."+fn.Name()+" modelled as a stable insertion sort calling the real less function"]++
+			for i := 1; i < n; i++ {
+				for j := i; j > 0; j-- {
+					lt := w.callValue(args[1], []Value{tt.BV(64, uint64(j)), tt.BV(64, uint64(j-1))}).(*Term)
+					if !w.branch(lt) {
+						break
+					}
+					a, b := &sl.B.Cells[sl.Off+j], &sl.B.Cells[sl.Off+j-1]
+					va, vb := copyVal(*a), copyVal(*b)
+					w.storeInto(a, vb)
+					w.storeInto(b, va)
+				}
+			}
+			return nil, true
+		case "SliceIsSorted":
+			iv := args[0].(IfaceV)
+			sl := w.concGeom(iv.V.(SliceV))
+			n := w.concInt(sl.Len, "sort.SliceIsSorted length")
+			res := tt.Bool(true)
+			for i := n - 1; i > 0; i-- {
+				lt := w.callValue(args[1], []Value{tt.BV(64, uint64(i)), tt.BV(64, uint64(i-1))}).(*Term)
+				res = tt.And(res, tt.Not(lt))
+			}
+			return res, true
 		}
 	case "internal/bytealg", "internal/cpu", "internal/abi", "internal/race", "internal/godebug":
 		switch name {
@@ -454,7 +492,13 @@ func (w *Worker) mathExternal(fn *ssa.Function, args []Value) (Value, bool) {
 		if w.isF() {
 			return w.fpToBits(a), true
 		}
-		panic(unsupported("math.Float64bits of a symbolic real"))
+		// model R: an uninterpreted bit pattern of a finite value (never the
+		// exponent of Inf/NaN); injectivity is not assumed
+		bts := tt.UF("uf_realbits", BVSort(64), a)
+		ax := tt.Not(tt.Eq(tt.BVExtract(bts, 62, 52), tt.BV(11, 0x7ff)))
+		w.addAxiom(ax)
+		w.stats.Stubs["R+ model: math.Float64bits(x) of a symbolic real is an uninterpreted finite bit pattern"]++
+		return bts, true
 	case "Float64frombits":
 		a := w.f1(args)
 		if a.IsConst() {
@@ -462,6 +506,9 @@ func (w *Worker) mathExternal(fn *ssa.Function, args []Value) (Value, bool) {
 		}
 		if w.isF() {
 			return w.fpFromBits(a, 64), true
+		}
+		if a.Op == OpUF && a.Name == "uf_realbits" {
+			return a.Args[0], true
 		}
 		panic(unsupported("math.Float64frombits of symbolic bits in the real model"))
 	case "Float32bits":
@@ -827,4 +874,83 @@ func (w *Worker) binaryReadWrite(fn *ssa.Function, args []Value) (Value, bool) {
 	}
 	res := w.callFunction(m, []Value{rw.V, buf}, nil).(TupleV)
 	return res[1], true
+}
+
+func (w *Worker) addAxiom(ax *Term) {
+	for _, a := range w.tt.axioms {
+		if a == ax {
+			return
+		}
+	}
+	w.tt.axioms = append(w.tt.axioms, ax)
+}
+
+// randExternal: package-level random functions return arbitrary values of
+// their contract (fresh symbolic inputs named env.rand#k).
+func (w *Worker) randExternal(fn *ssa.Function, args []Value) (Value, bool) {
+	tt := w.tt
+	if fn.Signature.Recv() != nil || fn.Parent() != nil {
+		return nil, false
+	}
+	fresh := func(kind string, s Sort) *Term {
+		w.randSeq++
+		return w.declareInput(fmt.Sprintf("env.rand#%d", w.randSeq), s, kind)
+	}
+	note := func() { w.stats.Stubs["package-level "+pkgPathOf(fn)+"."+fn.Name()+" returns an arbitrary value of its contract"]++ }
+	switch fn.Name() {
+	case "IntN", "Intn", "Int64N", "Int63n", "Int31n", "Int32N", "UintN", "Uint64N", "Uint32N", "N":
+		n := args[0].(*Term)
+		if !w.branch(tt.BVSlt(tt.BV(n.Sort.W, 0), n)) {
+			panic(targetPanic{v: StrV{S: "invalid argument to " + fn.Name()}})
+		}
+		note()
+		v := fresh("int", BVSort(n.Sort.W))
+		w.assume(tt.And(tt.BVSle(tt.BV(n.Sort.W, 0), v), tt.BVSlt(v, n)))
+		return v, true
+	case "Int", "Int64", "Int63":
+		note()
+		v := fresh("int", BVSort(64))
+		w.assume(tt.BVSle(tt.BV(64, 0), v))
+		return v, true
+	case "Uint64":
+		note()
+		return fresh("uint", BVSort(64)), true
+	case "Uint32":
+		note()
+		return fresh("uint", BVSort(32)), true
+	case "Float64":
+		note()
+		v := fresh("float", w.floatSort(false))
+		if w.isF() {
+			w.assume(tt.And(w.fLe(tt.FPConst(64, 0), v), w.fLt(v, tt.FPConst(64, 1))))
+		} else {
+			w.assume(tt.And(tt.RLe(tt.Real(0), v), tt.RLt(v, tt.Real(1))))
+		}
+		return v, true
+	case "Perm":
+		n := w.concInt(args[0].(*Term), "rand.Perm length")
+		note()
+		sl := w.newSlice(types.Typ[types.Int], n, n)
+		var vs []*Term
+		for i := 0; i < n; i++ {
+			v := fresh("int", BVSort(64))
+			w.assume(tt.And(tt.BVSle(tt.BV(64, 0), v), tt.BVSlt(v, tt.BV(64, uint64(n)))))
+			for _, o := range vs {
+				w.assume(tt.Not(tt.Eq(o, v)))
+			}
+			vs = append(vs, v)
+			sl.B.Cells[i] = v
+		}
+		return sl, true
+	case "Shuffle":
+		n := w.concInt(args[0].(*Term), "rand.Shuffle length")
+		note()
+		for i := n - 1; i > 0; i-- {
+			j := fresh("int", BVSort(64))
+			w.assume(tt.And(tt.BVSle(tt.BV(64, 0), j), tt.BVSle(j, tt.BV(64, uint64(i)))))
+			w.callValue(args[1], []Value{tt.BV(64, uint64(i)), j})
+		}
+		return nil, true
+	}
+	return nil, false
 }
